@@ -613,7 +613,53 @@ class Extractor:
                 else:
                     raise ValueError("anchor `%s` not valid for container %s" % (anchor, selector))
                 edits.append((p, p, "\n" + text + "\n", lineno))
-            if children_spec is not None:
+            if children_spec is not None and it.kind == "struct":
+                # D10: field projection -- keep only the named fields of a struct whose other fields
+                # have types Verus cannot represent (std hash maps, self-referential parents); the
+                # functions under contract may only touch the kept fields (anything else fails to compile)
+                keep = {c.strip()[len("field "):].strip() for c in children_spec if c.strip().startswith("field ")}
+                seen_f = set()
+                k = it.body_open + 1
+                fstart = None
+                while k < it.body_close:
+                    t = toks[k]
+                    if t.kind in ("ws", "comment"):
+                        k += 1
+                        continue
+                    if fstart is None:
+                        fstart = k
+                    if t.kind == "punct" and t.text in rustlex.OPEN:
+                        k = rustlex.match_close(toks, k) + 1
+                        continue
+                    if t.kind == "punct" and t.text == "<":
+                        d = 0
+                        while True:
+                            tx = toks[k].text
+                            if toks[k].kind == "punct" and tx == "<":
+                                d += 1
+                            elif toks[k].kind == "punct" and tx == ">":
+                                d -= 1
+                            elif toks[k].kind == "punct" and tx == ">>":
+                                d -= 2
+                            if d <= 0:
+                                break
+                            k += 1
+                        k += 1
+                        continue
+                    if (t.kind == "punct" and t.text == ",") or k == it.body_close - 1:
+                        fend = k
+                        names = [toks[j].text for j in range(fstart, fend + 1) if toks[j].kind == "ident" and toks[j].text != "pub"]
+                        fname = names[0] if names else "?"
+                        if fname in keep:
+                            seen_f.add(fname)
+                        else:
+                            edits.append((toks[fstart].start, toks[fend].end, "", 0))
+                        fstart = None
+                    k += 1
+                if keep - seen_f:
+                    raise LostAnchor("%s :: %s: fields not found: %s" % (rel, selector, sorted(keep - seen_f)))
+                self.log.append("D10 %s: fields kept %s, all other fields dropped" % (selector, sorted(keep)))
+            elif children_spec is not None:
                 want = {}
                 for c in children_spec:
                     c = c.strip()
@@ -661,6 +707,9 @@ class Extractor:
                         self.log.append("dropped attribute %s on %s" % (attr, selector))
         # apply
         text = self._apply(src, it.start, it.end, edits)
+        if it.kind == "struct" and children_spec is not None:
+            # D8 put `pub ` in front of fields that D10 dropped: remove the orphans
+            text = re.sub(r"pub\s+(?=(pub\b|\}))", "", text)
         for ckey, ch, mode in fnlist:
             body = src[ch.start:ch.end]
             self.functions.append({"key": ckey, "file": rel,
